@@ -12,6 +12,7 @@
 //	l3 repoint <zone> <same|new> <nsttl> <dsttl>   the parent re-points the zone to new servers with new data
 //	l3 behave <zone> <honest|nsauth|nschange>       what the (current) child says about itself
 //	l3 qrace <zone> [cd]               sr.<zone> is asked while the zone's lease runs out (self-referral race)
+//	l3 slowref sec= delay= act=        self-contained real-time case (slow child referral, 1 s ancestor lease)
 //	l3 audit                           only run the state audit
 //
 // Every op ends with the state audit (stored leases against what the parents
@@ -71,8 +72,10 @@ type inst struct {
 	ubound   [2]time.Duration // the same bound computed WITHOUT the 12 h ceiling (diagnosis only)
 	refs     int
 
-	mu   sync.Mutex
-	mode string
+	mu        sync.Mutex
+	mode      string
+	slowBelow string
+	slowFor   time.Duration
 }
 
 type refRec struct {
@@ -109,6 +112,7 @@ type scenario struct {
 	race    *inst
 	raceLin int
 
+	twoNS bool // the deepest delegation has a glued and a glue-less name server
 	soft string // known-finding verdict of the last audit (reported only if nothing else failed)
 }
 
@@ -213,8 +217,18 @@ func (s *scenario) addInst(idx, gen int, parent *inst, nsTTL, dsTTL uint32, sign
 	default:
 		i.nsHost = fmt.Sprintf("ns%d.%s", gen+1, name)
 		opts.NSHosts = []string{i.nsHost}
+		if s.twoNS && idx == 3 {
+			// one glued and one glue-less in-zone host: the referral makes lookupV4Nss
+			// write a provisional entry before it looks the second host up
+			opts.NSHosts = append(opts.NSHosts, fmt.Sprintf("nsb%d.%s", gen+1, name))
+		}
 	}
 	i.z = s.w.AddZone(name, opts)
+	if s.twoNS && idx == 3 {
+		if d := s.w.Delegation(name); d != nil && len(d.Glue) > 1 {
+			d.Glue = d.Glue[:1]
+		}
+	}
 	i.srv = i.z.Servers[len(i.z.Servers)-1]
 	if signed && i.z.Keys[0].Key.KeyTag() == 0 {
 		// miekg refuses to sign with key tag 0 (the l3 server would panic): take another key
@@ -255,10 +269,22 @@ func (s *scenario) addInst(idx, gen int, parent *inst, nsTTL, dsTTL uint32, sign
 // hook installs the observer (which referrals do the servers hand out, and
 // when) and the scripted child behaviours on an incarnation's server.
 func (s *scenario) hook(i *inst) {
-	i.srv.SetBehaviour(l3.Behaviour{Tamper: func(q dns.Question, honest *dns.Msg, tcp bool) *dns.Msg {
-		s.observe(i, honest)
-		return s.tamper(i, q, honest)
-	}})
+	i.srv.SetBehaviour(l3.Behaviour{
+		Delay: func(q dns.Question, tcp bool) time.Duration {
+			// slowref: the FIRST referral for a name below slowBelow is slow (real time)
+			i.mu.Lock()
+			defer i.mu.Unlock()
+			if i.slowBelow != "" && i.slowFor > 0 && dns.IsSubDomain(i.slowBelow, lcn(q.Name)) {
+				d := i.slowFor
+				i.slowFor = 0
+				return d
+			}
+			return 0
+		},
+		Tamper: func(q dns.Question, honest *dns.Msg, tcp bool) *dns.Msg {
+			s.observe(i, honest)
+			return s.tamper(i, q, honest)
+		}})
 }
 
 func (s *scenario) observe(from *inst, m *dns.Msg) {
@@ -386,6 +412,8 @@ func execNew(f []string) vlib.Res {
 	s.negttl = uint32(vlib.AtoU64(get("neg", "300")))
 	pf := vlib.Atoi(get("pf", "0"))
 	s.prefetch = pf
+	s.twoNS = get("two", "0") == "1"
+	upstreamTimeout := vlib.Atoi(get("to", "0"))
 	qmin := vlib.Atoi(get("qmin", "0"))
 	for len(ns) < depth {
 		ns = append(ns, 300)
@@ -420,6 +448,9 @@ func execNew(f []string) vlib.Res {
 	s.p = l3.NewPipe(s.w, l3.PipeOpts{DNSSEC: s.dnssec, Tweak: func(cfg *config.Config) {
 		cfg.Prefetch = uint32(pf)
 		cfg.QnameMinLevel = qmin
+		if upstreamTimeout > 0 {
+			cfg.Timeout.Duration = time.Duration(upstreamTimeout) * time.Millisecond
+		}
 	}})
 	s.t0 = time.Now()
 	cur = s
@@ -775,9 +806,89 @@ func execQuery(s *scenario, f []string) vlib.Res {
 	return vlib.Res{Impl: impl, Oracle: s.finish(verdict, softQ), Tags: tags}
 }
 
+// execSlowRef is the one real-time case: a 1 s (real) ancestor lease runs out while
+// the ancestor's servers are slow to hand out the child referral, whose NS set has a
+// glued and a glue-less host. Nothing learned from that referral may be kept past a
+// lease the grandparent actually granted; after the grandparent withdraws the ancestor
+// and its last lease is over, replies follow the grandparent.
+//
+//	l3 slowref sec=<0|1> delay=<ms> act=<withdraw|repoint>
+//
+// Self-contained (builds its own world). All judgements are the usual one-directional
+// ones; on a FAIL the whole case is repeated once on a fresh world and only a failure
+// with the same signature both times is reported.
+func execSlowRef(f []string) vlib.Res {
+	m := kv(f)
+	sec, delay, act := "0", "1200", "withdraw"
+	if v, ok := m["sec"]; ok {
+		sec = v
+	}
+	if v, ok := m["delay"]; ok {
+		delay = v
+	}
+	if v, ok := m["act"]; ok {
+		act = v
+	}
+	once := func() (string, string) {
+		steps := []string{
+			"l3 new d=3 sec=" + sec + " ns=300,1,3600 ds=300,300,3600 sg=111 attl=300 neg=300 pf=0 qmin=0 oob=0 two=1 to=2500",
+			"@slow " + delay,
+			"l3 q www.deep.vic.test. A",
+			"l3 audit",
+		}
+		if act == "repoint" {
+			steps = append(steps, "l3 repoint vic.test. new 300 300")
+		} else {
+			steps = append(steps, "l3 withdraw vic.test.")
+		}
+		steps = append(steps, fmt.Sprintf("l3 end vic.test. %d", int(slack/time.Millisecond)+200),
+			"l3 q www.deep.vic.test. A", "l3 q long.deep.vic.test. A", "l3 q nx.deep.vic.test. A", "l3 q www.vic.test. A")
+		var impls []string
+		for _, st := range steps {
+			if strings.HasPrefix(st, "@slow ") {
+				if v := cur.current("vic.test."); v != nil {
+					v.mu.Lock()
+					v.slowBelow, v.slowFor = "deep.vic.test.", time.Duration(vlib.Atoi(strings.Fields(st)[1]))*time.Millisecond
+					v.mu.Unlock()
+				}
+				continue
+			}
+			r := execL3(strings.Fields(st))
+			impls = append(impls, r.Impl)
+			if strings.HasPrefix(r.Oracle, "FAIL") && !strings.Contains(r.Oracle, "sig=l3/lease/cd1-bucket-ignores-ds-ttl") &&
+				!strings.Contains(r.Oracle, "cd1-lineage-live") {
+				return r.Oracle + " step=" + strings.Join(strings.Fields(st)[1:], "_"), strings.Join(impls, ";")
+			}
+		}
+		return "ok", strings.Join(impls, ";")
+	}
+	v1, impl := once()
+	if v1 != "ok" {
+		v2, impl2 := once()
+		sig := func(v string) string {
+			for _, w := range strings.Fields(v) {
+				if strings.HasPrefix(w, "sig=") {
+					return w
+				}
+			}
+			return ""
+		}
+		if v2 == "ok" || sig(v2) != sig(v1) {
+			v1 = "ok" // not reproducible on a fresh world: real-time noise, nothing is claimed
+		} else {
+			v1, impl = v2, impl2
+		}
+	}
+	closeScen()
+	return vlib.Res{Impl: impl, Oracle: v1, Tags: "nt,l3,realtime"}
+}
+
 func execL3(f []string) vlib.Res {
 	if f[1] == "new" {
 		return execNew(f)
+	}
+	if f[1] == "slowref" {
+		return execSlowRef(f)
 	}
 	s := cur
 	if s == nil {
@@ -955,6 +1066,7 @@ func genL3Case(r *vlib.R, n int, emit func(string)) int {
 	oob := 0
 	vic := 1 + r.Intn(depth) // which level the parent withdraws / re-points
 	quiet := false           // no queries between the parent's action and the lease end
+	hotNeg := false          // NXDOMAIN / NODATA names are kept hot too
 	switch kind {
 	case 0: // a 1–2 s lease against the 5 s cache floor
 		nsT[vic-1] = 1 + r.Intn(2)
@@ -979,6 +1091,9 @@ func genL3Case(r *vlib.R, n int, emit func(string)) int {
 	case 3: // long-TTL answers kept hot with an aggressive prefetch threshold
 		attl, pf = 86400, 90
 		nsT[vic-1] = vlib.Pick(r, []int{5, 10, 30})
+	case 8: // hot NXDOMAIN / NODATA names with long SOA minimums, refreshed while the lease is live
+		neg, pf, hotNeg = vlib.Pick(r, []int{300, 3600, 86400}), vlib.Pick(r, []int{50, 90}), true
+		nsT[vic-1], dsT[vic-1] = vlib.Pick(r, []int{5, 10, 30}), vlib.Pick(r, []int{10, 30, 300})
 	case 4: // name servers in a sibling zone (no glue: provisional entries, address lookups)
 		oob = 1
 		if depth == 2 && r.Chance(1, 2) {
@@ -1045,8 +1160,16 @@ func genL3Case(r *vlib.R, n int, emit func(string)) int {
 			if r.Chance(1, 2) {
 				e("l3 q long." + V + " A" + fl())
 			}
+			if hotNeg || r.Chance(1, 3) {
+				// denials are refreshed in the background like any other hot entry
+				e("l3 q nx." + V + " A" + fl())
+				e("l3 q www." + V + " AAAA" + fl())
+			}
 			if vic < depth && r.Chance(1, 2) {
 				e("l3 q www." + deepest + " A" + fl())
+				if hotNeg {
+					e("l3 q nx." + deepest + " A" + fl())
+				}
 			}
 		}
 	}
@@ -1066,7 +1189,11 @@ func genL3Case(r *vlib.R, n int, emit func(string)) int {
 			e("l3 q " + V + " NS" + fl())
 			e("l3 q www." + V + " A" + fl())
 		}
-		hot(r.Intn(4))
+		if hotNeg {
+			hot(2 + r.Intn(3))
+		} else {
+			hot(r.Intn(4))
+		}
 	}
 	// the parent acts
 	if r.Chance(1, 2) {
